@@ -15,6 +15,7 @@
                             the loop leaves a list of four out of order (8 of the 24 orders; lists of <= 3 sort).
 -/
 import PdshVerif.Mod.SortLemmas
+import PdshVerif.Mod.Now
 
 namespace PdshVerif.Mod
 
@@ -199,5 +200,42 @@ theorem rebase_head_only_witness :
   decide
 
 example : listSortCursor (fun a b : Int => a - b) [3, 2, 0, 1, 2] = [0, 1, 2, 2, 3] := by decide
+
+/-! ### the loader with the pointer loop in it (what `pdshmodel mod model cursor` runs) -/
+
+namespace Now
+
+/-- `Now.loadDirG` with list_sort's pointer loop in the place of `listSort` -/
+def loadDirCursor (rename : Bool) (oid : Str → Nat) (beats : Beats) (cmp : Mod → Mod → Int) (e : Env) (d : Dir) :
+    Result :=
+  let base := baseOpts e.pers
+  match e.owner with
+  | none => ⟨true, [], [], base, [], []⟩
+  | some owner =>
+    if !pathOk e.uid owner d.path then ⟨true, [], [], base, [], []⟩
+    else
+      let ls := loadFiles rename oid beats e.uid owner e.pers d.files
+      if ls.count = 0 then ⟨true, [], [], base, ls.opened, []⟩
+      else
+        let r := initPhase e.pers e.misc (listSortCursor cmp ls.mods)
+        ⟨false, r.1, r.2.calls, r.2.opts, ls.opened, r.2.regs⟩
+
+theorem loadDirCursor_eq (rename : Bool) (oid : Str → Nat) (beats : Beats) (cmp : Mod → Mod → Int) (e : Env) (d : Dir) :
+    loadDirCursor rename oid beats cmp e d = loadDirG rename oid beats cmp e d := by
+  have h : @listSortCursor Mod = @listSort Mod := by
+    funext cmp l; exact listSortCursor_eq cmp l
+  unfold loadDirCursor loadDirG
+  rw [h]
+  cases e.owner <;> rfl
+
+def loadAllCursor (rename : Bool) (oid : Str → Nat) (e : Env) : Result :=
+  loadDirCursor rename oid Tie.beats cmpF (persFirstEnv e) (chooseDir (persFirstEnv e))
+
+theorem loadAllCursor_eq (oid : Str → Nat) (e : Env) :
+    loadAllCursor false oid e = loadAll oid e ∧ loadAllCursor true oid e = loadAllRename oid e := by
+  unfold loadAllCursor loadAll loadAllRename
+  simp only [loadDirCursor_eq, and_self]
+
+end Now
 
 end PdshVerif.Mod
